@@ -1,3 +1,4 @@
+import os
 # Path solver with constraint-independence slicing.  z3's incremental (push/pop) mode is ~100x
 # slower than the tactic pipeline on the adder-chain equivalences the arithmetic properties produce
 # (measured), so every query is solved non-incrementally on the connected component of the path
@@ -63,6 +64,9 @@ class PathSolver:
         self.parent = {}
         self.timeout_ms = timeout_ms
         self.false = False
+        self.inc = None            # incremental solver, only used on paths with very many (EUF-heavy) assertions
+        self.inc_fed = 0
+        self.inc_fail = 0
     def set(self, *a, **k): pass
     def find(self, x):
         p = self.parent
@@ -102,11 +106,32 @@ class PathSolver:
         s.add(fs)
         r = s.check()
         return r, (s.model() if r == z3.sat else None), (s.reason_unknown() if r == z3.unknown else '')
+    INC_THRESHOLD = 400
+    def try_incremental(self, extra):
+        """paths with thousands of uninterpreted-function axioms (restore: 100 derivations per batch): re-asserting all of
+        them for every query costs ~1 s each, so keep one incremental solver for the path; it is only trusted for a short
+        time limit (bit-vector arithmetic is slow in incremental mode) and abandoned after two timeouts"""
+        if len(self.asserts) < self.INC_THRESHOLD or self.inc_fail >= 2 or os.environ.get('VERIF_NO_INC'): return None
+        if self.inc is None:
+            self.inc = z3.Solver(); self.inc_fed = 0
+        while self.inc_fed < len(self.asserts):
+            self.inc.add(self.asserts[self.inc_fed][0]); self.inc_fed += 1
+        self.inc.set('timeout', 3000)
+        self.inc.push()
+        self.inc.add(extra)
+        r = self.inc.check()
+        m = self.inc.model() if r == z3.sat else None
+        self.inc.pop()
+        if r == z3.unknown:
+            self.inc_fail += 1; return None
+        return r, (MultiModel([m]) if m is not None else None), ''
     def check(self, extra=None):
         """satisfiability of the path condition together with extra (sliced); returns (result, model, reason)"""
         if self.false: return z3.unsat, None, ''
         if extra is None:
             return z3.sat, None, ''       # the path condition is kept feasible by construction
+        r = self.try_incremental(extra)
+        if r is not None: return r
         ss = symset(extra)
         uf = '@uf' in ss
         roots = {self.find(s) for s in ss if s != '@uf'}
@@ -122,6 +147,9 @@ class PathSolver:
         return self.solve(comp + [extra], uf or uf2)
     def full_model(self, extra=None):
         """models of every component (for counterexample extraction)"""
+        if extra is not None:
+            r = self.try_incremental(extra)
+            if r is not None: return r
         groups = {}
         ufs = {}
         loose = []
